@@ -746,6 +746,84 @@ class Gadgets:
       self.stmts.append("%s = %s.m()" % (self.fresh("kr"), o2))
 
 
+  # (e) closure factories: one def/lambda that returns a closure over its parameter, called several times with
+  #     captured values of DIFFERENT types; the closures are then called with IDENTICAL arguments (so that anything
+  #     shared between them - the function object, its call cache - would answer for the wrong capture) and the
+  #     results are bound to module-level names.  Nested def, lambda in lambda, closure stored first or called at once,
+  #     the capture returned bare or inside a display (then read back by a constant subscript).
+  def closure_factory(self):
+    r = self.r
+    f = self.fresh("mk")
+    n = r.randint(2, 3)
+    lits = []
+    while len(lits) < n:
+      x = r.choice(GADGET_LITS)
+      if all(not (x in ("1", "True", "2.5") and y in ("1", "True", "2.5")) and x != y for y in lits):
+        lits.append(x)
+    wrap = r.choice(["%s", "%s", "[%s]", "(%s,)", "{'k': %s}"])
+    arg = r.choice(["", "", "q"])
+    shape = r.randrange(3)
+    h = self.head
+    if shape == 0:
+      h += ["def %s(v):" % f, "  def inner(%s):" % arg, "    return %s" % (wrap % "v"), "  return inner"]
+    elif shape == 1:
+      h += ["%s = lambda v: (lambda %s: %s)" % (f, arg, wrap % "v")]
+    else:
+      h += ["def %s(v, w):" % f, "  def inner(%s):" % arg, "    t = v", "    return %s" % (wrap % "t"), "  return inner"]
+    a = r.choice(GADGET_LITS) if arg else ""
+    stored = []
+    for x in lits:
+      mkargs = x if shape != 2 else "%s, 0" % x
+      if r.random() < 0.5:
+        c = self.fresh("cl")
+        self.stmts.append("%s = %s(%s)" % (c, f, mkargs))
+        stored.append(c)
+      else:
+        self.stmts.append("%s = %s(%s)(%s)" % (self.fresh("cr"), f, mkargs, a))
+    for c in stored:
+      rr = self.fresh("cr")
+      self.stmts.append("%s = %s(%s)" % (rr, c, a))
+      if wrap in ("[%s]", "(%s,)"):
+        self.stmts.append("%s = %s[0]" % (self.fresh("ce"), rr))
+      elif wrap == "{'k': %s}":
+        self.stmts.append("%s = %s['k']" % (self.fresh("ce"), rr))
+
+  # (f) a dict display with constant str keys, one key overwritten with a value of a different type inside a branch
+  #     pytype cannot decide (taken or not taken at run time), then read back by a constant-key subscript: the entry
+  #     must keep BOTH types (Dict.setitem joins into the per-key variable).  Module level, or inside a method on a
+  #     dict-valued instance attribute with the result returned to a module-level name.
+  def dict_branch_store(self):
+    r = self.r
+    a, b = self.disjoint_lits()
+    k1, k2 = r.sample(["a", "b", "p", "k"], 2)
+    other = r.choice(GADGET_LITS)
+    disp = "{'%s': %s, '%s': %s}" % (k1, a, k2, other) if r.random() < 0.7 else "{'%s': %s}" % (k1, a)
+    cond = r.choice(self.OPAQUE_CONDS)
+    if r.random() < 0.6:
+      d = self.fresh("dd")
+      c = self.fresh("dc")
+      self.stmts.append("%s = %s" % (d, disp))
+      self.stmts.append("%s = %s" % (c, cond))
+      test = c if r.random() < 0.7 else "not %s" % c
+      if r.random() < 0.3:
+        self.stmts.append("if %s:\n  %s['%s'] = %s\nelse:\n  %s['%s'] = %s" % (test, d, k1, b, d, k2, b))
+      else:
+        self.stmts.append("if %s:\n  %s['%s'] = %s" % (test, d, k1, b))
+      self.stmts.append("%s = %s['%s']" % (self.fresh("dv"), d, k1))
+      if r.random() < 0.4:
+        self.stmts.append("%s['%s'] = %s" % (d, k1, r.choice(GADGET_LITS)))     # unconditional overwrite afterwards
+        self.stmts.append("%s = %s['%s']" % (self.fresh("dv"), d, k1))
+    else:
+      k = self.fresh("DK")
+      self.head += ["class %s:" % k, "  def __init__(self):", "    self.m = %s" % disp,
+                    "  def put(self, flag):", "    if flag:", "      self.m['%s'] = %s" % (k1, b),
+                    "    return self.m['%s']" % k1]
+      o = self.fresh("do")
+      self.stmts.append("%s = %s()" % (o, k))
+      self.stmts.append("%s = %s.put(%s)" % (self.fresh("dv"), o, cond))
+      self.stmts.append("%s = %s.m['%s']" % (self.fresh("dv"), o, k1))
+
+
 def weave(src, gad, r2):
   """definitions first, statements at random top-level statement boundaries (relative order kept)"""
   lines = src.rstrip("\n").split("\n")
@@ -783,7 +861,18 @@ def generate(r, n_stmts):
     gad.outside_store()
     if r2.random() < 0.25:
       gad.outside_store()
-  if gad.head:
+  # drawn from a third stream so that the gadgets above stay what they were for a given seed
+  r3 = random.Random("gadgets3:%r" % (r2.getstate()[1][:6],))
+  gad.r = r3
+  if r3.random() < 0.30:
+    gad.closure_factory()
+    if r3.random() < 0.3:
+      gad.closure_factory()
+  if r3.random() < 0.30:
+    gad.dict_branch_store()
+    if r3.random() < 0.3:
+      gad.dict_branch_store()
+  if gad.head or gad.stmts:
     src = weave(src, gad, r2)
   return src, g.calls + gad.calls
 
